@@ -227,6 +227,12 @@ def gen_case(rng, tier, ctx, i):
         rec = common.model_case(rng, tier, o)
         if rec is None:
             return None
+        if rng.random() < 0.25:
+            # plain models may contain the configurator's defaulted Any / Xor as well; their helpers are auto-generated too
+            for n in refmodel.recipe_nodes(rec):
+                if n["k"] in ("Any", "Xor") and len(n["args"]) >= 2 and all(a["k"] in ("var", "str") for a in n["args"]) and rng.random() < 0.7:
+                    n["k"] = "ccAny" if n["k"] == "Any" else "ccXor"
+                    n["default"] = [rng.choice(n["args"])["id"]]
         return {"api": "solve", "recipe": rec, "seed": rng.getrandbits(32)}
     rec = confgen.gen_config(rng)
     if rng.random() < 0.15:
